@@ -43,7 +43,7 @@ template <class PT> void icp_case(vf::Ctx& c, const char* tname, double tx, doub
 }
 
 // ---- RANSAC with gross outliers -------------------------------------------------------------------------------------
-template <class PT> void ransac_case(vf::Ctx& c, const char* tname, int n, int outlierPct, int placement, double dispSigma, int motion, bool planeMode) {
+template <class PT> void ransac_case(vf::Ctx& c, const char* tname, int n, int outlierPct, int placement, double dispSigma, int motion, bool planeMode, int variant = 0, bool coherent = false) {
   using S = typename PT::Scalar; constexpr int DIM = PointTraits<PT>::DIM;
   using H = Eigen::Matrix<S, DIM + 1, DIM + 1>;
   const double sigma = 0.05;
@@ -57,9 +57,9 @@ template <class PT> void ransac_case(vf::Ctx& c, const char* tname, int n, int o
   for (int k = 0; k < nOut; ++k) { int i = placement == 0 ? k : placement == 1 ? n - 1 - k : (int)((long)k * n / std::max(1, nOut)); isOut[i] = true; }
   PointSet<PT> src, tgt, srcIn, tgtIn; NormalSet<PT> nrm, nrmIn;
   for (int i = 0; i < n; ++i) {
-    auto h = regref::pattern(i + 1); regref::V3 p(10 * h[0], 10 * h[1], DIM == 3 ? 10 * h[2] : 0);
+    auto h = regref::pattern(i + 1 + 1000 * variant); regref::V3 p(10 * h[0], 10 * h[1], DIM == 3 ? 10 * h[2] : 0);
     regref::V3 q = R * p + t; auto e = regref::pattern(i + 1001); q += 0.3 * sigma * regref::V3(e[0], e[1], DIM == 3 ? e[2] : 0) / sqrtl((LD)DIM);
-    if (isOut[i]) { auto d = regref::pattern(i + 5003); regref::V3 dir(d[0], d[1], DIM == 3 ? d[2] : 0); if (dir.norm() < 1e-3) dir = regref::V3(1, 0, 0); dir.normalize(); q += dispSigma * sigma * dir; }
+    if (isOut[i]) { auto d = regref::pattern(coherent ? 5003 + variant : i + 5003); /* coherent: every outlier displaced by the same offset (a second rigid object) */ regref::V3 dir(d[0], d[1], DIM == 3 ? d[2] : 0); if (dir.norm() < 1e-3) dir = regref::V3(1, 0, 0); dir.normalize(); q += dispSigma * sigma * dir; }
     auto g = regref::pattern(i + 9001); regref::V3 nn(g[0], g[1], DIM == 3 ? g[2] : 0); if (nn.norm() < 1e-3) nn = regref::V3(0, 1, 0); nn.normalize();
     PT ps = mk2<PT>((double)p[0], (double)p[1], (double)p[2]), pt = mk2<PT>((double)q[0], (double)q[1], (double)q[2]), pn = mk2<PT>((double)nn[0], (double)nn[1], (double)nn[2]); if (PointTraits<PT>::SIZE > DIM) pn[PointTraits<PT>::SIZE - 1] = 0;
     src.push_back(ps); tgt.push_back(pt); nrm.push_back(pn);
@@ -81,13 +81,13 @@ template <class PT> void ransac_case(vf::Ctx& c, const char* tname, int n, int o
   c.eval(); if (nOut) c.nontrivial();
   c.obs((uint64_t)ok1); c.obs(r1); for (int i = 0; i < (DIM + 1) * (DIM + 1); ++i) c.obs((double)h1(i / (DIM + 1), i % (DIM + 1)));
   c.note_max(std::string("ransac_frobenius_err_") + tname, (double)e1); c.note_max(std::string("ransac_outlier_influence_") + tname, (double)e12);
-  std::string params = vf::JO().str("type", tname).str("mode", planeMode ? "point-to-plane" : "closed-form").i("pairs", n).i("outlier_percent", outlierPct).str("outlier_placement", placement == 0 ? "first" : placement == 1 ? "last" : "interleaved").num("outlier_displacement_sigma", dispSigma).num("tx", tx).num("ty", ty).num("theta", th).done();
+  std::string params = vf::JO().str("type", tname).str("mode", planeMode ? "point-to-plane" : "closed-form").i("set_variant", variant).b("coherent_outliers", coherent).i("pairs", n).i("outlier_percent", outlierPct).str("outlier_placement", placement == 0 ? "first" : placement == 1 ? "last" : "interleaved").num("outlier_displacement_sigma", dispSigma).num("tx", tx).num("ty", ty).num("theta", th).done();
   if (!ok1 || !(e1 <= 0.015L) || !(r1 < sigma) || !(e12 <= 0.015L))
     c.violation("Ransac.estimateModel.rigidTransformation", params, vf::JO().b("estimated", ok1).num("frobenius_err_vs_truth", e1).num("rmse", r1).num("sigma", sigma).num("difference_vs_outlier_free_run", e12).b("outlier_free_estimated", ok2).done());
   if (c.want_sample()) c.sample(params);
 }
 
-struct Case { int kind; int type; double a, b, cc; int n, pct, place, motion; double disp; bool plane; };
+struct Case { int kind; int type; double a, b, cc; int n, pct, place, motion; double disp; bool plane; int variant = 0; bool coherent = false; };
 std::vector<Case> g_cases[2];
 const char* kT2[] = {"Vector2d", "Homogeneous2d", "Vector2f", "Homogeneous2f"};
 const char* kT3[] = {"Vector3d", "Homogeneous3d", "Vector3f", "Homogeneous3f"};
@@ -95,7 +95,7 @@ const char* kT3[] = {"Vector3d", "Homogeneous3d", "Vector3f", "Homogeneous3f"};
 const std::vector<Case>& cases(bool th) {
   auto& v = g_cases[th];
   if (!v.empty()) return v;
-  int nt = th ? 41 : 9, nr = th ? 21 : 5;
+  int nt = th ? 41 : 21, nr = th ? 21 : 5;
   for (int t = 0; t < 4; ++t) for (int i = 0; i < nt; ++i) for (int j = 0; j < nt; ++j) for (int k = 0; k < nr; ++k)
     v.push_back({0, t, -0.2 + 0.4 * i / (nt - 1), -0.2 + 0.4 * j / (nt - 1), -0.05 + 0.1 * k / (nr - 1), 0, 0, 0, 0, 0, false});
   for (int t = 0; t < 8; ++t) for (int n : {40, 100, 400}) for (int pct : {0, 10, 20, 30}) for (int place = 0; place < (pct ? 3 : 1); ++place) for (double disp : {10.5, 50.0}) for (int m = 0; m < 6; ++m) {
@@ -103,6 +103,10 @@ const std::vector<Case>& cases(bool th) {
     if (!th && (t % 4) >= 2 && (m % 2)) continue;   // float types: half of the motions in the quick tier
     v.push_back({1, t, 0, 0, 0, n, pct, place, m, disp, false});
     if (m < 3 && (th || n == 100)) v.push_back({1, t, 0, 0, 0, n, pct, place, m, disp, true});
+  }
+  // coherent outliers (one common displacement: a second, smaller consensus) over a lattice of data sets
+  for (int t : {0, 4}) for (int n : {100, 163, 232, 355, 390}) for (int pct : {20, 30}) for (int var = 0; var < (th ? 120 : 40); ++var) {
+    Case k{1, t, 0, 0, 0, n, pct, 2, var % 6, 15.0, false}; k.variant = var; k.coherent = true; v.push_back(k);
   }
   return v;
 }
@@ -117,10 +121,10 @@ void vf_run(uint64_t idx, const std::string& tier, vf::Ctx& c) {
     switch (k.type) { case 0: icp_case<Eigen::Vector2d>(c, kT2[0], k.a, k.b, k.cc); break; case 1: icp_case<HomogeneousCoordinates2d>(c, kT2[1], k.a, k.b, k.cc); break; case 2: icp_case<Eigen::Vector2f>(c, kT2[2], k.a, k.b, k.cc); break; default: icp_case<HomogeneousCoordinates2f>(c, kT2[3], k.a, k.b, k.cc); }
   } else {
     switch (k.type) {
-      case 0: ransac_case<Eigen::Vector2d>(c, kT2[0], k.n, k.pct, k.place, k.disp, k.motion, k.plane); break; case 1: ransac_case<HomogeneousCoordinates2d>(c, kT2[1], k.n, k.pct, k.place, k.disp, k.motion, k.plane); break;
-      case 2: ransac_case<Eigen::Vector2f>(c, kT2[2], k.n, k.pct, k.place, k.disp, k.motion, k.plane); break; case 3: ransac_case<HomogeneousCoordinates2f>(c, kT2[3], k.n, k.pct, k.place, k.disp, k.motion, k.plane); break;
-      case 4: ransac_case<Eigen::Vector3d>(c, kT3[0], k.n, k.pct, k.place, k.disp, k.motion, k.plane); break; case 5: ransac_case<HomogeneousCoordinates3d>(c, kT3[1], k.n, k.pct, k.place, k.disp, k.motion, k.plane); break;
-      case 6: ransac_case<Eigen::Vector3f>(c, kT3[2], k.n, k.pct, k.place, k.disp, k.motion, k.plane); break; default: ransac_case<HomogeneousCoordinates3f>(c, kT3[3], k.n, k.pct, k.place, k.disp, k.motion, k.plane);
+      case 0: ransac_case<Eigen::Vector2d>(c, kT2[0], k.n, k.pct, k.place, k.disp, k.motion, k.plane, k.variant, k.coherent); break; case 1: ransac_case<HomogeneousCoordinates2d>(c, kT2[1], k.n, k.pct, k.place, k.disp, k.motion, k.plane, k.variant, k.coherent); break;
+      case 2: ransac_case<Eigen::Vector2f>(c, kT2[2], k.n, k.pct, k.place, k.disp, k.motion, k.plane, k.variant, k.coherent); break; case 3: ransac_case<HomogeneousCoordinates2f>(c, kT2[3], k.n, k.pct, k.place, k.disp, k.motion, k.plane, k.variant, k.coherent); break;
+      case 4: ransac_case<Eigen::Vector3d>(c, kT3[0], k.n, k.pct, k.place, k.disp, k.motion, k.plane, k.variant, k.coherent); break; case 5: ransac_case<HomogeneousCoordinates3d>(c, kT3[1], k.n, k.pct, k.place, k.disp, k.motion, k.plane, k.variant, k.coherent); break;
+      case 6: ransac_case<Eigen::Vector3f>(c, kT3[2], k.n, k.pct, k.place, k.disp, k.motion, k.plane, k.variant, k.coherent); break; default: ransac_case<HomogeneousCoordinates3f>(c, kT3[3], k.n, k.pct, k.place, k.disp, k.motion, k.plane, k.variant, k.coherent);
     }
   }
 }
@@ -130,8 +134,8 @@ std::string vf_case_params(uint64_t idx, const std::string& tier) { const Case& 
 std::string vf_describe(const std::string& tier) {
   bool th = tier == "thorough"; vf::JO o;
   o.str("icp", th ? "test/data/scan2d.txt (702 points) x (tx,ty) on a 41x41 lattice over [-0.2,0.2]^2 x theta on 21 values over [-0.05,0.05] x {Vector2d, Homogeneous2d, Vector2f, Homogeneous2f}; envelope corners included; fresh ICP object, identity guess, sigma 0.2"
-                  : "test/data/scan2d.txt (702 points) x (tx,ty) on a 9x9 lattice over [-0.2,0.2]^2 x theta in {-0.05,-0.025,0,0.025,0.05} x {Vector2d, Homogeneous2d, Vector2f, Homogeneous2f}; envelope corners included; fresh ICP object, identity guess, sigma 0.2");
-  o.str("ransac", "Halton-pattern sets of {40,100,400} pairs over 20 m, 2D and 3D, all eight point types, inlier perturbation 0.3 sigma (sigma = 0.05), outliers {0,10,20,30}% placed first / last / interleaved and displaced 10.5 sigma or 50 sigma, six motions up to 0.5 m / 0.2 rad in the closed-form mode; point-to-plane mode for rotations up to 1e-3 rad");
+                  : "test/data/scan2d.txt (702 points) x (tx,ty) on a 21x21 lattice over [-0.2,0.2]^2 x theta in {-0.05,-0.025,0,0.025,0.05} x {Vector2d, Homogeneous2d, Vector2f, Homogeneous2f}; envelope corners included; fresh ICP object, identity guess, sigma 0.2");
+  o.str("ransac", "Halton-pattern sets of {40,100,400} pairs over 20 m, 2D and 3D, all eight point types, inlier perturbation 0.3 sigma (sigma = 0.05), outliers {0,10,20,30}% placed first / last / interleaved and displaced 10.5 sigma or 50 sigma, six motions up to 0.5 m / 0.2 rad in the closed-form mode; point-to-plane mode for rotations up to 1e-3 rad; plus coherent outliers (all displaced by one common 15 sigma offset, 20/30%) over 40 (thorough 120) data-set variants x {100,163,232,355,390} pairs, Vector2d and Vector3d");
   o.str("oracle", "find / estimateModel true; Frobenius norm of (estimate - truth) <= 0.015; reported consensus RMSE < sigma; estimate with outliers within 0.015 of the estimate on the same set without them");
   return o.done();
 }
